@@ -22,6 +22,7 @@ from golem.core.dag.graph_verifier import GraphVerifier
 from golem.core.dag.verification_rules import DEFAULT_DAG_RULES
 from golem.core.optimisers.advisor import DefaultChangeAdvisor, RemoveType
 from golem.core.optimisers.genetic.gp_params import GPAlgorithmParameters
+from golem.core.optimisers.genetic.operators.base_mutations import MutationStrengthEnum
 from golem.core.optimisers.genetic.operators import base_mutations as bm
 from golem.core.optimisers.genetic.operators import crossover as cx
 from golem.core.optimisers.graph import OptGraph, OptNode
@@ -341,7 +342,8 @@ def run_mutation_case(spec):
     adv = LogAdvisor(spec['advice'])
     ggp = GraphGenerationParams(advisor=adv, node_factory=fac, random_graph_factory=rgf)
     req = GraphRequirements(max_depth=spec['md'], min_arity=spec['min_ar'], max_arity=spec['max_ar'])
-    params = GPAlgorithmParameters(max_num_of_operator_attempts=spec['attempts'])
+    params = GPAlgorithmParameters(max_num_of_operator_attempts=spec['attempts'],
+                                   mutation_strength=MutationStrengthEnum[spec.get('strength', 'mean')])
     f = mutation_function(fn)
     raised = None
     res = None
@@ -613,7 +615,20 @@ def mutation_spec(rng, fn, par, labels=None):
             'labels': labels or random_labels(rng, n, rng.randint(1, 3), data_source=(advice == 'with_direct_children')),
             'md': rng.randint(1, 6), 'min_ar': rng.randint(1, 2), 'max_ar': rng.randint(2, 4), 'ntypes': ntypes,
             'none_p': none_p, 'advice': advice, 'attempts': rng.choice([1, 3, 100]), 'rgf': rgf,
+            'strength': rng.choice(['weak', 'mean', 'strong']),
             'seed': rng.randrange(1 << 30)}
+
+
+# DAGs with a skip edge (root <- mid <- src plus root <- src, both parent orders), diamonds with a
+# shortcut, a ladder: simple_mutation walks the OLD parent lists of replaced nodes, so a node is met
+# again after it was replaced; with MutationStrengthEnum.strong every met node is replaced
+SKIP_SHAPES = [
+    [[1, 2], [2], []], [[2, 1], [2], []],
+    [[1, 2, 3], [3], [3], []], [[3, 1, 2], [3], [3], []], [[1, 3, 2], [3], [3], []],
+    [[1, 3], [2, 3], [3], []], [[3, 1], [3, 2], [3], []],
+    [[1, 2], [2, 3], [3, 4], [4], []], [[2, 1], [3, 2], [4, 3], [4], []],
+    [[1, 2], [3], [3, 1], []],
+]
 
 
 def random_graph_spec(rng, nmax=10):
@@ -687,7 +702,8 @@ def run(ctx):
                 'listing order) and random DAGs with <= 10 nodes (valid single-sink with shared ancestors, and merely '
                 'well-formed: several sinks, isolated nodes) x max_depth 1..6 x arity bounds x node factories with '
                 '1..3 node types (35% of them answering None at random) x own / repository random graph factory x the five '
-                'RemoveType advices x attempts 1/3/100 x seeds; crossovers on independent pairs, on deepcopies and on '
+                'RemoveType advices x attempts 1/3/100 x mutation strength weak/mean/strong x seeds; simple_mutation additionally on '
+                '10 skip-edge / shortcut-diamond / ladder DAGs (both parent orders) x 3 strengths x 1..3 node types; crossovers on independent pairs, on deepcopies and on '
                 'mutated deepcopies of one ancestor (shared uids). distinct = distinct call specification; '
                 'non-trivial = input in the domain and the call changed the graph')
     ctx.trusted_extra = [
@@ -709,6 +725,17 @@ def run(ctx):
                 m_small.append(mutation_spec(rng, fn, par if k == 0 else permute(rng, par)))
     evaluate(ctx, 'mutations-small', 'mut', m_small)
     ctx.set_exhaustive('mutations-small', True)
+    # ---- simple_mutation on skip-edge DAGs x every strength x 1..3 node types
+    m_skip = []
+    for par in SKIP_SHAPES:
+        for strength in ('weak', 'mean', 'strong'):
+            for ntypes in (1, 2, 3):
+                for k in range(ctx.budget(2, 8)):
+                    spec = mutation_spec(rng, 'simple', par if k % 2 == 0 else permute(rng, par))
+                    spec['strength'], spec['ntypes'] = strength, ntypes
+                    spec['none_p'] = 0.0 if k < 1 else spec['none_p']
+                    m_skip.append(spec)
+    evaluate(ctx, 'simple-skip-edges', 'mut', m_skip)
     m_rand = []
     for _ in range(ctx.budget(260, 5000)):
         par = random_graph_spec(rng)
